@@ -58,8 +58,10 @@ class TLCResult:
         needle = '\\"tag\\":\\"' + tag + '\\"'
         for ln in self.out.splitlines():
             if ln.startswith('"{') and needle in ln:
-                res.append(json.loads(json.loads(ln)))
-        return res
+                res.append(ln)
+        # TLC's workers print in a nondeterministic order: sort, so that seeded sampling downstream is reproducible
+        res.sort()
+        return [json.loads(json.loads(ln)) for ln in res]
 
     def printed(self):
         """All values printed with PrintT, one normalised string each.  TLC pretty-prints long
